@@ -5,9 +5,11 @@ import JenVerif.Tie.DictSrc
   Here the recursion is closed on the code side: `srcRec cfg n` is the null test and the renderer
   ASSEMBLED FROM THE TRANSLATED GO METHODS, dispatching on the constructor of `Code` exactly as Go
   dispatches on the dynamic type, with `n` levels of nesting allowed (Go's recursion is structural
-  on the finite tree).  The only hand-modelled leaf is `token.render` (literal formatting through
-  fmt/strconv), which is `Code.renderS` on `.tok` / `.lit`; `f.register` is the model's `register`,
-  tied to the translated one by `Tie.register_src_eq_model`.
+  on the finite tree).  NO leaf is hand-modelled any more: tokens and literals (`.tok` / `.lit`) go
+  through the translated `token.render` (`Gen.Src.token_render`, tied to the model by
+  `Tie.token_render_eq` in TokenSrc.lean; its fmt/strconv verbs are the primitives of GoPrim.lean),
+  tags and comments through the translated `tag.render` / `comment.render`.  `f.register` is the
+  model's `register`, tied to the translated one by `Tie.register_src_eq_model`.
 -/
 namespace Tie
 open Code
@@ -56,7 +58,8 @@ def srcRec (cfg : Cfg) : Nat → Go.Rec
         | .dict ps => Gen.Src.Dict_render cfg (srcRec cfg n) ps f w
         | .tag t => some (Gen.Src.tag_render cfg t f w, f)
         | .comment t => some (Gen.Src.comment_render cfg t f w, f)
-        | c => some (w ++ (Code.renderS cfg f prev c).1, (Code.renderS cfg f prev c).2)
+        | .tok k s => Gen.Src.token_render cfg (srcRec cfg n) (Go.tokTyp (.tok k s)) (Go.dynOf (.tok k s)) f w
+        | .lit v => Gen.Src.token_render cfg (srcRec cfg n) (Go.tokTyp (.lit v)) (Go.dynOf (.lit v)) f w
       register := Registry.register cfg }
 
 end Tie
